@@ -137,6 +137,11 @@ def showOut : Out → String
 def runOps (probes : List Key) : Store → List String → List String
   | _, [] => []
   | s, f :: r =>
+    if f == "cd" then
+      -- `CoreData.__init__`: cross fixup of the builtin table + init_builtins (not an `Op`: coredata layer)
+      let (res, s') := coreDataInit s
+      (showRes (fun _ => "ok") res ++ "#" ++ showState s' probes) :: runOps probes s' r
+    else
     match parseOp f with
     | none => ["bad-op"]
     | some op =>
